@@ -1,5 +1,6 @@
 import PrefVerif.Model.Euclid
 import PrefVerif.Lemmas.IOSort
+import PrefVerif.Lemmas.C19onStage
 /-!
 # C19 helper lemmas, part 4: the axis is a permutation of the coloured alternatives; the pieces of
 `Euclid.lp`
@@ -40,47 +41,19 @@ theorem axisOf_perm (g : Colouring) (v1 vn cplus : List Nat) : (axisOf g v1 vn c
   rw [axisDict_keys] at h
   exact h
 
-theorem stage_grey_aux (alts : List Nat) (orders : List (List Nat)) :
-    (stage alts orders).grey =
-      match (stage alts orders).coloured with
-      | some g => alts.filter (fun c => colour g c == 3)
-      | none => [] := by
-  unfold stage
-  generalize scOrders alts orders = s
-  rcases SingleCrossing.isSC orders alts.length with ⟨isSc, w⟩
-  cases isSc
-  · rfl
-  · cases s.head? with
-    | none => rfl
-    | some v1 =>
-      cases s.getLast? with
-      | none => rfl
-      | some vn =>
-        simp only [Bool.not_true, Bool.false_eq_true, if_false]
-        cases colourPairs v1 vn (orderedPairs alts)
-            (initColouring alts v1 vn (v1.headD 0) (vn.headD 0)) with
-        | none => rfl
-        | some g' => rfl
-
 /-- the grey set reported by `stage` is the set of alternatives coloured 3 -/
 theorem stage_grey (alts : List Nat) (orders : List (List Nat)) (g : Colouring)
     (h : (stage alts orders).coloured = some g) :
-    (stage alts orders).grey = alts.filter (fun c => colour g c == 3) := by
-  rw [stage_grey_aux, h]
+    (stage alts orders).grey = alts.filter (fun c => colour g c == 3) :=
+  stageOn_grey alts _ _ g h
 
 /-- unfolding of `Euclid.lp` -/
 theorem lp_eq_some (alts : List Nat) (orders : List (List Nat)) (l : LP) (h : lp alts orders = some l) :
     ∃ g v1 vn, (stage alts orders).coloured = some g ∧
       l.cplus = colouredAlts alts g ∧ l.axis = axisOf g v1 vn l.cplus ∧
       l.preferences = restrictPreferences orders l.cplus ∧
-      l.constraints = lpConstraints l.preferences l.axis := by
-  unfold lp at h
-  split at h
-  · next g v1 vn hg _ _ =>
-    simp only [Option.some.injEq] at h
-    subst h
-    exact ⟨g, v1, vn, hg, rfl, rfl, rfl, rfl⟩
-  · simp at h
+      l.constraints = lpConstraints l.preferences l.axis :=
+  lpOn_eq_some alts orders _ _ l h
 
 theorem colouredAlts_of_no_grey (alts : List Nat) (g : Colouring)
     (h : alts.filter (fun c => colour g c == 3) = []) : colouredAlts alts g = alts := by
